@@ -5,9 +5,9 @@ from __future__ import annotations
 import ast
 import itertools
 
-from ..astutil import attr_stores, call_name, calls_in, dotted, guard_atoms, lexical_guards, name_stores, unparse, walk_local
+from ..astutil import attr_stores, call_name, calls_in, dotted, name_stores, unparse, walk_local
 from ..index import FuncInfo
-from ..report import Registry, chain, sub
+from ..report import Registry, sub
 from ._helpers_rob_h2 import Abs, Closure, Opq, PathInterp, Unsupported
 
 R = Registry(
